@@ -87,6 +87,8 @@ class MetaString(type):
         """Overwrite an existing string keeping the space fixed at creation"""
         if cls._size is not None:
             return cls._to_buffer(buffer, offset, value)
+        if isinstance(value, String):
+            value = value.to_str()  # its text, not its size header
         info = cls._inspect_args(value)
         size = Int64._from_buffer(buffer, offset)
         if info.size > size:
